@@ -21,6 +21,9 @@ type vfBodySpec struct {
 	ErrWithData bool   `json:"errWithData"` // end=error: the last bytes and the error arrive in the same Read call
 	CloseErr    bool   `json:"closeErr"`    // closing the body fails
 	Items       string `json:"items"`       // readable description of the envelope items
+	// Stray: the encoding header of the *other* family of protocols is present too, with this value (a multi-protocol
+	// peer that sets both): it says nothing about this body
+	Stray string `json:"strayEncodingHeader,omitempty"`
 }
 
 // vfEv is the comparable summary of one trace event.
